@@ -136,6 +136,26 @@ def aimed_flips(rng, wal, frames, budget):
     return out[:budget], len(naked)
 
 
+def cross_cases(rng, crc, wal, sps, cases, ncross):
+    """cases for recovering processes whose options differ from the writer's: the uncut log, every savepoint end (for
+    the other buffer size also the bytes around it) and ncross cuts drawn from the same-configuration cases; bit flips
+    only where checksums were written and are checked"""
+    ends = [e for e, _ in sps]
+    pure = [c[0] for c in cases if not c[1]]
+    flips = [c[1] for c in cases if c[1] and c[0] == len(wal)]
+    out = []
+    for rc in W.cross_configs(crc):
+        cuts = set([len(wal)] + ends)
+        if (rc ^ crc) & 2:
+            cuts |= {e - 1 for e in ends} | {e - 12 for e in ends} | {e + 1 for e in ends if e + 1 <= len(wal)}
+        for _ in range(ncross if pure else 0):
+            cuts.add(rng.choice(pure))
+        out += [(c, [], rc) for c in sorted(cuts)]
+        if (crc & rc & 1) and flips:
+            out += [(len(wal), rng.choice(flips), rc) for _ in range(max(1, ncross // 2))]
+    return out
+
+
 def run_history(impl, wd, name, crc, ops):
     d = os.path.join(wd, name)
     shutil.rmtree(d, ignore_errors=True)
@@ -163,7 +183,8 @@ def mk_case(src, dst, cut, flips, reset=None):
 
 
 def eval_cases(run, impl, model, wd, hist, cases, tag):
-    """cases: list of (cut, flips). Returns list of result dicts"""
+    """cases: list of (cut, flips) or (cut, flips, rcrc): rcrc = option flags of the RECOVERING process (default: the
+    writer's).  Returns list of result dicts"""
     src, crc = hist["dir"], hist["crc"]
     res = []
     nchunk = max(1, min(vlib.NCPU, len(cases)))
@@ -173,9 +194,10 @@ def eval_cases(run, impl, model, wd, hist, cases, tag):
         dst = os.path.join(wd, "%s-%s-%d" % (hist["name"], tag, ci))
         mk_case(src, dst, cut, flips, reset=hist.get("reset"))
         k = ci % nchunk
-        full = (ci % 5 == 0) or any(e == cut for e, _ in hist["sps"]) or (flips and not (crc & 1) and ci % 2 == 0)
-        chunks_m[k].append("wal %s/a %d%s" % (dst, crc, "" if full else " ops"))
-        chunks_i[k] += ["wal %s/a %d" % (dst, crc), "rec %s/b %d -1" % (dst, crc)]
+        rcrc = case[2] if len(case) > 2 and case[2] is not None else crc
+        full = (ci % 5 == 0) or any(e == cut for e, _ in hist["sps"]) or (flips and not (crc & rcrc & 1) and ci % 2 == 0)
+        chunks_m[k].append("wal %s/a %d%s" % (dst, rcrc, "" if full else " ops"))
+        chunks_i[k] += ["wal %s/a %d" % (dst, rcrc), "rec %s/b %d -1" % (dst, rcrc)]
         idx[k].append(ci)
     import time
     t0 = time.time()
@@ -190,7 +212,8 @@ def eval_cases(run, impl, model, wd, hist, cases, tag):
             m = om[k][j] if j < len(om[k]) else "<missing>"
             a = oi[k][2 * j] if 2 * j < len(oi[k]) else "<missing>"
             b = oi[k][2 * j + 1] if 2 * j + 1 < len(oi[k]) else "<missing>"
-            out[ci] = {"cut": cases[ci][0], "flips": cases[ci][1], "model": m, "impl_wal": a, "impl_rec": b}
+            out[ci] = {"cut": cases[ci][0], "flips": cases[ci][1], "model": m, "impl_wal": a, "impl_rec": b,
+                       "rcrc": cases[ci][2] if len(cases[ci]) > 2 and cases[ci][2] is not None else crc}
     for ci in range(len(cases)):
         shutil.rmtree(os.path.join(wd, "%s-%s-%d" % (hist["name"], tag, ci)), ignore_errors=True)
     return out
@@ -201,7 +224,7 @@ def t2_compare(r, crc):
     fm, fi = W.fields(r["model"]), W.fields(r["impl_wal"])
     if "rc" not in fm:
         return "model gave no answer: %s" % r["model"][:100]
-    if r["flips"] and not (crc & 1):
+    if r["flips"] and not (crc & r.get("rcrc", crc) & 1):
         # corruption without checksums is outside the property and largely undefined behaviour in C (wild
         # memset/memmove): compared only when both sides finish the replay normally
         if fm.get("rc") == "FAULT" or fi.get("exit") != "0" or fi.get("rc") not in ("0", "CORRUPTED_WAL"):
@@ -273,7 +296,7 @@ def classify(hist, r, kind):
     return "other"
 
 
-def do_history(run, impl, model, wd, name, crc, ops, ncut, nflip, corpus_cases=None, nreset=0):
+def do_history(run, impl, model, wd, name, crc, ops, ncut, nflip, corpus_cases=None, nreset=0, ncross=0):
     rng = run.rng
     d, line = run_history(impl, wd, name, crc, ops)
     tr = W.parse_trace(os.path.join(d, "trace"))
@@ -306,7 +329,7 @@ def do_history(run, impl, model, wd, name, crc, ops, ncut, nflip, corpus_cases=N
                 k, dd = c[2:].split("-")
                 return sps[int(k)][0] - int(dd) if int(k) < len(sps) else len(wal)
             return len(wal) if c == "end" else c
-        cases = [(cutof(c), f) for c, f in corpus_cases]
+        cases = [(cutof(x[0]), x[1], x[2] if len(x) > 2 else None) for x in corpus_cases]
     else:
         b, inner = interesting_cuts(rng, wal, frames, ncut)
         cases = [(c, []) for c in b + inner]
@@ -319,41 +342,69 @@ def do_history(run, impl, model, wd, name, crc, ops, ncut, nflip, corpus_cases=N
                 break
             off = rng.below(len(wal))
             cases.append((len(wal) if rng.chance(3, 4) else rng.range(off + 1, len(wal)), [(off, 1 << rng.below(8))]))
-    res = eval_cases(run, impl, model, wd, hist, cases, "c")
-    nok = 0
-    for r in res:
+    SMALL = 4096 - 12       # wal->bufsz of a process opened with the 4 KB log buffer
+    segs = [(p, int.from_bytes(wal[p + 8:p + 12], "little")) for p, op, sz in frames if op == 127]
+    nokc = [0]
+
+    def judge_case(r, cross):
         kind = "flip" if r["flips"] else "cut"
+        rcrc = r["rcrc"]
         run.dist("case_" + kind)
+        if cross:
+            # the recovering process was opened with other options than the process that wrote the log; the question
+            # asked is the same
+            run.dist("recovery_cross_config")
+            for kd in W.cross_kind(crc, rcrc):
+                run.dist("recovery_cross_config_" + kd)
+            if (rcrc & 2) and any(ln > SMALL and p + 12 + ln <= r["cut"] for p, ln in segs):
+                run.dist("recovery_cross_config_segment_longer_than_recovering_buffer")
         inside = [W.KIND[op] for p, op, sz in frames if p < r["cut"] < p + sz]
         run.dist("cut_in_" + (inside[0] if inside else "boundary")) if kind == "cut" else None
-        run.case("%s|%d|%s|%s" % (" ".join(ops), crc, r["cut"], r["flips"]), nontrivial=True,
-                 sample={"history_ops": len(ops), "crc": crc, "cut": r["cut"], "flips": r["flips"], "impl": r["impl_rec"][:160],
-                         "model": r["model"]} if (r["cut"] % 97 == 0) else None)
+        run.case("%s|%d|%s|%s%s" % (" ".join(ops), crc, r["cut"], r["flips"], "|rec%d" % rcrc if cross else ""), nontrivial=True,
+                 sample={"history_ops": len(ops), "crc": crc, "recovering_crc": rcrc, "cut": r["cut"], "flips": r["flips"],
+                         "impl": r["impl_rec"][:160], "model": r["model"]} if (r["cut"] % 97 == 0) else None)
         t2 = t2_compare(r, crc)
         if t2 == "skip":
             run.dist("t2_skipped_flip_without_checksums")
         elif t2:
-            run.broken.append("T2 correspondence: %s cut=%d flips=%s crc=%d: %s" % (name, r["cut"], r["flips"], crc, t2)) if len(run.broken) < 8 else None
+            run.broken.append("T2 correspondence: %s cut=%d flips=%s crc=%d%s: %s" % (
+                name, r["cut"], r["flips"], crc, " recovering with options %d (%s)" % (rcrc, W.cfg_text(rcrc)) if cross else "", t2)) if len(run.broken) < 8 else None
             if os.environ.get("VERIF_DEBUG"):
                 print("T2", r)
         else:
-            nok += 1
+            nokc[0] += 1
         if kind == "cut":
             ok, why, allowed = oracle_cut(hist, r)
-        elif crc & 1:
+        elif crc & rcrc & 1:          # the checksums were written and are checked
             ok, why = oracle_flip(hist, r)
             allowed = "any savepoint"
         else:
             ok = True
         if not ok:
             cl = classify(hist, r, kind)
+            if cross and cl == "other":
+                cl = "cross-config"
+                why = "log written with [%s], recovered by a process opened with [%s]: %s" % (W.cfg_text(crc), W.cfg_text(rcrc), why)
             run.cov.setdefault("violations_by_class", {})
             run.cov["violations_by_class"][cl] = run.cov["violations_by_class"].get(cl, 0) + 1
             if run.cov["violations_by_class"][cl] > 2:
-                continue
-            run.violation({"ops": ops, "crc": crc, "cut": r["cut"], "flips": r["flips"], "class": classify(hist, r, kind),
-                           "impl": r["impl_rec"][:2000], "allowed": allowed,
-                           "savepoint_ends": [e for e, _ in sps], "base_class": cls}, why)
+                return
+            rep = {"ops": ops, "crc": crc, "cut": r["cut"], "flips": r["flips"], "class": cl,
+                   "impl": r["impl_rec"][:2000], "allowed": allowed,
+                   "savepoint_ends": [e for e, _ in sps], "base_class": cls}
+            if cross:
+                rep["recovering_crc"] = rcrc
+            run.violation(rep, why)
+
+    for r in eval_cases(run, impl, model, wd, hist, cases, "c"):
+        judge_case(r, r["rcrc"] != crc)
+    # --- cross-configuration recoveries: the outcome of a recovery is a function of the two files, not of the options
+    # of the process that happens to open them (Proto.recover_open, C05_recovery_independent_of_recovering_config).
+    # Same cuts, same oracle, recovering process with the other log-buffer size and/or the other checksum setting.
+    if corpus_cases is None and ncross > 0:
+        for r in eval_cases(run, impl, model, wd, hist, cross_cases(rng, crc, wal, sps, cases, ncross), "x"):
+            judge_case(r, True)
+    nok = nokc[0]
     run.cov["traces_validated_against_impl"] += nok
     # --- logs with a reset mark (a checkpoint taken while an online backup was in stages 4-5 keeps the log and
     # appends SEP+RESET; if the process then dies before the next truncating checkpoint, open must recover from
@@ -377,12 +428,20 @@ def do_history(run, impl, model, wd, name, crc, ops, ncut, nflip, corpus_cases=N
                 j = rng.below(i + 1)
                 pts[i], pts[j] = pts[j], pts[i]
             rcases = [(c, []) for c in sorted(pts[:nreset])]
+            if corpus_cases is None and ncross > 0:
+                # the same logs recovered by a process with the other buffer size / checksum setting
+                rcases += [(c, [], crc ^ 2) for c in sorted(pts[:nreset])[::6]] + [(c, [], crc ^ 1) for c in sorted(pts[:nreset])[3::12]]
             for r in eval_cases(run, impl, model, wd, h2, rcases, "r%d" % b):
+                cross = r["rcrc"] != crc
                 run.dist("case_reset_mark")
-                run.case("%s|%d|reset%d|%s" % (" ".join(ops), crc, b, r["cut"]), nontrivial=True)
+                if cross:
+                    run.dist("recovery_cross_config")
+                    run.dist("recovery_cross_config_log_with_reset_mark")
+                run.case("%s|%d|reset%d|%s%s" % (" ".join(ops), crc, b, r["cut"], "|rec%d" % r["rcrc"] if cross else ""), nontrivial=True)
                 t2 = t2_compare(r, crc)
                 if t2 and t2 != "skip":
-                    run.broken.append("T2 correspondence: %s reset@%d cut=%d crc=%d: %s" % (name, b, r["cut"], crc, t2)) if len(run.broken) < 8 else None
+                    run.broken.append("T2 correspondence: %s reset@%d cut=%d crc=%d%s: %s" % (
+                        name, b, r["cut"], crc, " recovering with options %d" % r["rcrc"] if cross else "", t2)) if len(run.broken) < 8 else None
                 else:
                     run.cov["traces_validated_against_impl"] += 1
                 ok, why, allowed = oracle_cut(hist, r)
@@ -390,9 +449,13 @@ def do_history(run, impl, model, wd, name, crc, ops, ncut, nflip, corpus_cases=N
                     run.cov.setdefault("violations_by_class", {})
                     run.cov["violations_by_class"]["reset-mark"] = run.cov["violations_by_class"].get("reset-mark", 0) + 1
                     if run.cov["violations_by_class"]["reset-mark"] <= 2:
-                        run.violation({"ops": ops, "crc": crc, "cut": r["cut"], "flips": [], "reset_at": b, "class": "reset-mark",
-                                       "impl": r["impl_rec"][:2000], "allowed": allowed, "savepoint_ends": [e for e, _ in sps],
-                                       "base_class": cls}, "log with a reset mark at %d: %s" % (b, why))
+                        rep = {"ops": ops, "crc": crc, "cut": r["cut"], "flips": [], "reset_at": b, "class": "reset-mark",
+                               "impl": r["impl_rec"][:2000], "allowed": allowed, "savepoint_ends": [e for e, _ in sps],
+                               "base_class": cls}
+                        if cross:
+                            rep["recovering_crc"] = r["rcrc"]
+                        run.violation(rep, "log with a reset mark at %d%s: %s" % (
+                            b, ", recovered by a process opened with [%s]" % W.cfg_text(r["rcrc"]) if cross else "", why))
             shutil.rmtree(pre, ignore_errors=True)
     shutil.rmtree(d, ignore_errors=True)
 
@@ -410,7 +473,8 @@ def check(run):
                 continue
             c = json.load(open(os.path.join(cdir, cf)))
             do_history(run, impl, model, wd, "corp" + cf[:-5].replace("-", ""), c["crc"], c["ops"], 0, 0,
-                       corpus_cases=[(x[0], [tuple(y) for y in x[1]]) for x in c["cases"]], nreset=c.get("nreset", 0))
+                       corpus_cases=[(x[0], [tuple(y) for y in x[1]], x[2] if len(x) > 2 else None) for x in c["cases"]],
+                       nreset=c.get("nreset", 0))
         if run.tier == "quick":
             nh, ncut, nflip = 4 * mult, 450, 120
         else:
@@ -420,7 +484,8 @@ def check(run):
             pregrow = run.tier == "quick" or run.rng.chance(3, 4)
             ops = gen_history(run.rng, crc, pregrow)
             run.dist("history_crc%d" % crc)
-            do_history(run, impl, model, wd, "h%d" % h, crc, ops, ncut, nflip, nreset=(60 if run.tier == "quick" else 400))
+            do_history(run, impl, model, wd, "h%d" % h, crc, ops, ncut, nflip, nreset=(60 if run.tier == "quick" else 400),
+                       ncross=(20 if run.tier == "quick" else 150))
             if run.broken and len(run.broken) > 20:
                 break
     finally:
@@ -430,8 +495,10 @@ def check(run):
                       rule="logs written by real store runs (random put/del/sync histories, 1-2 databases, checksums on/off, "
                            "8 MB and 4 KB log buffers, values up to 4200 bytes incl. the buffer-bypass path); cut at every record "
                            "boundary and at offsets inside every record kind (all interior offsets of SEP/SAVEPOINT/RESET records, "
-                           "header edges and the last 21 bytes of the others); single-bit flips; a case = (history, checksum mode, "
-                           "cut, flips); distinct = distinct case text",
+                           "header edges and the last 21 bytes of the others); single-bit flips; every log is also recovered by processes "
+                           "opened with the other log-buffer size and/or the other checksum setting (uncut, every savepoint end, "
+                           "sampled cuts; distribution key recovery_cross_config); a case = (history, writer's options, "
+                           "cut, flips, recovering options); distinct = distinct case text",
                       assumptions=["bytes read past the end of the log file (C over-read inside the last mapped page) are modelled as 0",
                                    "kill model: what write(2) returned is durable; power-loss reordering is outside the property"])
 
@@ -455,9 +522,11 @@ def replay(run, path):
             vlib.run_lines(impl, "wal %s %d\n" % (pre, r["crc"]))
             hist["reset"] = (b, os.path.join(pre, "db"))
             print("reset mark (SEP+RESET) inserted at log offset", b, "; main file = recovery of the first", b, "bytes")
-        res = eval_cases(run, impl, model, wd, hist, [(r["cut"], [tuple(x) for x in r["flips"]])], "r")[0]
+        rcrc = r.get("recovering_crc", r["crc"])
+        res = eval_cases(run, impl, model, wd, hist, [(r["cut"], [tuple(x) for x in r["flips"]], rcrc)], "r")[0]
         ok, why = (oracle_cut(hist, res)[:2] if not r["flips"] else oracle_flip(hist, res))
         print("history:", " ".join(r["ops"])); print("checksums/buffer mode:", r["crc"], " cut:", r["cut"], " flips:", r["flips"])
+        print("log written by a process with [%s]; recovered by a process with [%s]" % (W.cfg_text(r["crc"]), W.cfg_text(rcrc)))
         print("savepoint ends in log:", [e for e, _ in sps], "log size", os.path.getsize(os.path.join(d, "db-wal")))
         print("impl :", res["impl_rec"][:600]); print("model:", res["model"]); print("impl recovery step:", res["impl_wal"])
         print("verdict:", "holds" if ok else "VIOLATED: " + why); print("recorded note:", r.get("note"))
